@@ -5,71 +5,40 @@ EXPLANATION = (
     "proved oracle + exploration.  Proved in Coq: level-iteration BFS computes shortest distances (C16_bfs_dist); the "
     "executable eccentricities, diameter, radius, default radial set are the documented reachability-restricted ones and the "
     "checker accepts exactly the exact outputs with attaining vertices (C16_ecc_spec, C16_spec_checker_sound, "
-    "C16_default_checker_sound); for the directed variant every BFS step preserves lF<=ecc+<=uF, lB<=ecc-<=uB, dL<=D, R<=rU "
-    "for any pivot sequence and visiting order (C16_step_invariant, C16_run_invariant) and the exit conditions of every level "
-    "give exact values (C16_exit_exact, C16_machine_exact); for run_symm the same minus the radius clause "
-    "(C16_symm_step_invariant, C16_symm_exit_exact_partial).  Two genuine defects are proved on the model and reproduced on the "
-    "code (C16_radial_vertex_refuted, C16_symm_radius_refuted).  NOT proved: that the values all_cc_upper_bound derives from the "
-    "SCC DAG are upper bounds (only the abstract 'tightening preserves the invariant' step, C16_allcc_step_invariant_partial), "
-    "so the algorithm proof is not closed and the decision on every explored graph is made by the extracted proved checker "
-    "applied to the implementation's output")
+    "C16_default_checker_sound).  The machine model follows the code after the repairs of the radius bookkeeping "
+    "(42ca92a, 46b2bda, f9241dd).  Directed variant: every BFS step preserves lF<=ecc+<=uF, lB<=ecc-<=uB, dL<=D, R<=rU for any "
+    "pivot sequence and visiting order (C16_step_invariant, C16_run_invariant) and the exit condition of every level gives "
+    "an output accepted by the complete checker, radial vertex included, no side condition (C16_exit_exact, "
+    "C16_exit_radial_vertex, C16_machine_exact).  run_symm: forward visit, backward visit AND the SCC step "
+    "(all_cc_upper_bound, symmetric branch: d(pivot,v)+ecc(pivot) is an upper bound, C16_symm_pivot_bound) preserve the full "
+    "invariant for any pivots and orders, and the exit gives an output accepted by the complete checker "
+    "(C16_symm_step_invariant, C16_symm_exit_exact, C16_symm_machine_exact) under the hypothesis radius <= n/2 that the "
+    "initial bound n/2+1 presupposes (true of the largest-component radial set run_symm uses; that graph-theoretic fact is "
+    "not proved).  The two former defects remain as refutations of the pre-repair rules (C16_radial_vertex_refuted, "
+    "C16_symm_radius_refuted; C16_witnesses_repaired).  NOT proved: the DIRECTED branch of all_cc_upper_bound (that the values "
+    "derived through the SCC DAG are upper bounds; only the abstract tightening step, C16_allcc_step_invariant_partial), so "
+    "the algorithm proof is not closed for directed graphs and the decision on every explored graph is made by the "
+    "extracted proved checker applied to the implementation's output; correspondence: replay of the logged visits on the "
+    "machine (all runs without an SCC step; all run_symm runs, SCC steps included with the pivots of the model of "
+    "find_best_pivot, C16_best_pivots_legal)")
 ASSUMPTIONS = [
     "the harness builds the transpose itself and symmetric inputs are symmetric (the library leaves the result undefined otherwise)",
     "default radial vertices: the documentation says 'the largest strongly connected component'; when several components "
     "have the largest size the oracle accepts the radius of any of them",
     "the diametral vertex is accepted if its forward or its backward eccentricity equals the diameter",
     "thread schedules are those the OS produces on pools of 1..16 threads",
+    "run_symm: the exit theorem assumes radius <= n/2 for the radial set (a largest connected component); the fact is not "
+    "proved in Coq, the aspect 'symhyp' checks it on every explored symmetric graph",
 ]
-
-
-def _kv(case):
-    return case
-
-
-def known_rv_initial_bound(case, failing):
-    """F1: the radial vertex is left at its initial value 0 when the radius equals the initial upper bound
-    (n-1 for directed graphs, n/2 for symmetric ones): the update uses a strict comparison."""
-    names = set(f.split(":")[0] for f in failing)
-    if not names <= {"rv", "exact"} or "rv" not in names:
-        return None
-    n = int(case.get("n", "0"))
-    init = n // 2 if case.get("sym") == "1" else n - 1
-    if case.get("rv") == "0" and case.get("radius") == str(init):
-        return ("radial_vertex is not set when the radius equals the initial upper bound (num_nodes-1, or num_nodes/2 for "
-                "run_symm): vertex 0 is reported although it is not a radial vertex of minimum eccentricity "
-                "(e.g. arcs {1->0}, radial vertices {1}: radius=1, radial_vertex=0)")
-    return None
-
-
-def known_symm_radius(case, failing):
-    """F2: run_symm: a visit labelled 'backward' fixes the eccentricity of its start vertex without updating the
-    radius upper bound, so the radius can be reported too large (and the radial vertex wrong)."""
-    names = set(f.split(":")[0] for f in failing)
-    if case.get("sym") != "1" or names != {"radius", "exact"}:
-        return None
-    # the class: a backward-labelled visit exists and the reported radius is LARGER than the specification's
-    detail = [f for f in failing if f.startswith("radius:")][0]
-    spec = detail.split("spec:")[-1].rstrip(")").split("|")
-    steps = case.get("steps", "")
-    try:
-        too_large = all(v != "none" and int(case.get("radius")) > int(v) for v in spec)
-    except ValueError:
-        return None
-    if too_large and any(t.startswith("B") for t in steps.split(",")):
-        return ("run_symm: backwards_step_sum_sweep sets the eccentricity of its start vertex but does not update "
-                "radius_high/radius_vertex, so the vertex is never counted again and the reported radius can exceed the true one "
-                "(e.g. symmetric graph {1-1 loop}, isolated 0: radius=1 instead of 0; a 30-node path-like graph at level "
-                "RadiusDiameter: 12 instead of 11)")
-    return None
 
 
 def run(ctx):
     quick = ctx["tier"] == "quick"
-    oracle = {"status", "exact", "eccf", "eccb", "diam", "dv", "radius", "rv", "sched"}
-    corr = {"replay", "replayrv", "schedrv"}
+    oracle = {"status", "exact", "eccf", "eccb", "diam", "dv", "radius", "rv", "sched", "symhyp"}
+    corr = {"replay", "replaya", "replayrv", "schedrv"}
     nontrivial = (lambda c: None if int(c.get("n", "0")) < 2 else
                   (c.get("g"), c.get("sym"), c.get("rad"), c.get("lvl"), c.get("tot")))
-    matchers = [known_rv_initial_bound, known_symm_radius]
+    matchers = []
     if quick:
         runs = [("quick", "150", 0)]
     else:
